@@ -16,9 +16,9 @@ EXTENDS Nuts
 CONSTANTS KvB, KvK, Vals, LsB, LsK, StB, StK, ZsB, ZsK,   \* universes
           TxIds, UniqueIds, MaxTx, MaxOps, MaxClock
 
-VARIABLES clock, ntx, last
+VARIABLES clock, ntx, last, call
 
-mvars == <<vars, clock, ntx, last>>
+mvars == <<vars, clock, ntx, last, call>>
 
 Idx == {0 - 2, 0 - 1, 0, 1, 2}
 
@@ -47,7 +47,7 @@ ZsCalls ==
 
 MutCalls == KvCalls \cup LsCalls \cup StCalls \cup ZsCalls
 
-MCInit == Init /\ clock = 0 /\ ntx = 0 /\ last = "init"
+MCInit == Init /\ clock = 0 /\ ntx = 0 /\ last = "init" /\ call = [op |-> "none"]
 
 FreshId == IF UniqueIds THEN {TxIds[ntx + 1]} ELSE {TxIds[i] : i \in 1..Len(TxIds)}
 
@@ -55,26 +55,26 @@ MCBegin ==
   /\ ntx < MaxTx
   /\ \E w \in BOOLEAN, id \in FreshId : Begin([op |-> "begin", w |-> w, id |-> id, err |-> (status # "open")])
   /\ ntx' = IF status = "open" THEN ntx + 1 ELSE ntx
-  /\ last' = "begin" /\ UNCHANGED clock
+  /\ last' = "begin" /\ UNCHANGED <<clock, call>>
 
 MCMutate ==
   /\ Len(tx.recs) < MaxOps
-  /\ \E a \in MutCalls : Mutate(a) \/ MutateRO(a)
+  /\ \E a \in MutCalls : (Mutate(a) \/ MutateRO(a) \/ SMoveDeviant(a)) /\ call' = a
   /\ last' = "mutate" /\ UNCHANGED <<clock, ntx>>
 
 MCCommit ==
   /\ \/ CommitOK([op |-> "commit", err |-> FALSE]) /\ last' = "commit"
      \/ \E n \in 0..MaxOps : CommitFail([op |-> "commit", err |-> TRUE, nw |-> n]) /\ n < Len(tx.recs) /\ last' = "fail"
      \/ Rollback([op |-> "rollback"]) /\ last' = "rollback"
-  /\ UNCHANGED <<clock, ntx>>
+  /\ UNCHANGED <<clock, ntx, call>>
 
 MCLife ==
   /\ \/ Close([op |-> "close", err |-> (status # "open")]) /\ last' = "close"
      \/ Open([op |-> "open", err |-> FALSE]) /\ last' = "open"
      \/ Merge([op |-> "merge", err |-> FALSE]) /\ last' = "merge"
-  /\ UNCHANGED <<clock, ntx>>
+  /\ UNCHANGED <<clock, ntx, call>>
 
-Tick == clock < MaxClock /\ clock' = clock + 1 /\ last' = "tick" /\ UNCHANGED <<vars, ntx>>
+Tick == clock < MaxClock /\ clock' = clock + 1 /\ last' = "tick" /\ UNCHANGED <<vars, ntx, call>>
 
 MCNext == MCBegin \/ MCMutate \/ MCCommit \/ MCLife \/ Tick
 
@@ -95,6 +95,11 @@ NoEffect ==
 SerialView ==
   [][(tx.st = "rw" /\ last' = "commit") => SameObs(mem', ApplyRecs(mem, tx.recs), clock)]_mvars
 
+\* C13: every result returned inside a write transaction is the result of
+\* the call on the transaction's own view
+SerialResults ==
+  [][(last' = "mutate" /\ tx.st = "rw") => MutOK(call', tx.view, {})]_mvars
+
 \* C04: a commit changes only buckets the transaction wrote
 BucketsWritten(rs) == {rs[i].b : i \in 1..Len(rs)}
 ObsBucket(c, b) ==
@@ -110,6 +115,9 @@ MergePreserves ==
   [][(last' = "merge") => (SameObs(mem', mem, clock) /\ SameObs(Replay(log'), Replay(log), clock))]_mvars
 
 Bound == Len(log) <= MaxTx * MaxOps
+
+\* `last` and `call` only label the step just taken (for the action properties)
+MCView == <<vars, clock, ntx>>
 
 \* constant values a cfg file cannot spell (tuples): used as  X <- name
 KvK_1 == {<<1>>}
